@@ -377,6 +377,12 @@ def run(F, R, tier):
         if not fn:
             continue
         B = mir.Body(fn, F)
+        for bi, w, r, t in B.calls_named("Vec::dedup", "Vec::dedup_by", "Vec::dedup_by_key", "HashSet::insert", "BTreeSet::insert",
+                                         "Vec::truncate", "Vec::pop", "Vec::remove", "Vec::swap_remove", "Vec::retain", "Vec::drain",
+                                         "Iterator::take", "Iterator::skip", "Iterator::filter", "Iterator::step_by", "Itertools::unique",
+                                         "Itertools::dedup", "HashMap::remove", "HashMap::retain"):
+            R.fail("C04.R7", R.key("C04.R7", fn["id"], "item-dropping-call"), q.where(B, bi),
+                   "canonicaliser calls %s, which can drop request items from the signed string" % q.base_name(w))
         for bi, w, r, t in B.calls_named("HashMap::insert", "BTreeMap::insert"):
             uses = [u for u in B.uses_of(t["dest"]["l"])]
             key = "C04.R7:%s:overwriting-insert:%d" % (fn["id"], len([i for i in R.instances if i["key"].startswith("C04.R7:%s:" % fn["id"])]))
